@@ -1,0 +1,29 @@
+//go:build verif
+
+package core
+
+import (
+	"github.com/jsightapi/jsight-api-core/directive"
+	"github.com/jsightapi/jsight-api-core/verifhook"
+)
+
+func verifFileAccess(op, path string) {
+	verifhook.FileAccess(op, path)
+}
+
+func (core *JApiCore) verifPhase(phase string) {
+	verifhook.Phase(phase, func() []*verifhook.Node {
+		var list []*directive.Directive
+		switch phase {
+		case "scan":
+			list = core.directives
+		default:
+			list = core.directivesWithPastes
+		}
+		res := make([]*verifhook.Node, 0, len(list))
+		for _, d := range list {
+			res = append(res, d.VerifDump())
+		}
+		return res
+	})
+}
